@@ -86,12 +86,27 @@ Rows ==
           allowed |-> Len(reg) = 1 /\ Absolute(reg[1]) /\ reg[1].fragment = "", undet |-> FALSE,
           code_ok |-> Len(reg) = 1 /\ SecureForCode(reg[1])] : reg \in RegSets, rt \in RTypes, e \in Errs }
 
+(* ---- requests that come in through a pushed authorization request -----------
+   The redirect URI is fixed when the request is pushed (the pushed one, or the single registered one when none was
+   pushed); a redirect_uri sent next to the request_uri in the front channel -- registered or not -- never replaces it. *)
+Evil == U("https", "", "evil.example", "", "/cb", "", "")
+ParFront(reg) == {Evil, U("https", "", "client.example", "", "/cb", "?a=1", ""), U("http", "", "127.0.0.1", ":9999", "/cb", "", "")}
+                 \cup {reg[i] : i \in DOMAIN reg} \cup Near1(reg[1])
+ParRow(reg, p, fo, q, rt) ==
+  [par |-> TRUE, reg |-> reg, pushed |-> p, front_omitted |-> fo, front |-> q, rtype |-> rt,
+   target_known |-> (p = "first" \/ Len(reg) = 1), target |-> reg[1], code_ok |-> SecureForCode(reg[1])]
+ParRows ==
+  UNION { { ParRow(reg, p, FALSE, q, rt) : p \in {"first", "omitted"}, q \in ParFront(reg), rt \in RTypes }
+          \cup { ParRow(reg, p, TRUE, U("", "", "", "", "", "", ""), rt) : p \in {"first", "omitted"}, rt \in RTypes }
+          : reg \in {r \in RegSets : Len(r) >= 1} }
+
 (* sanity of the specification itself *)
 ASSUME \A reg \in RegSets : \A i \in DOMAIN reg : Allowed(reg[i], reg)                      \* a registered URI is always allowed
 ASSUME \A reg \in RegSets : ~Allowed(U("https", "", "evil.example", "", "/cb", "", ""), reg) \* a foreign one never
 ASSUME \A r \in Registered : \A q \in Near1(r) : (q.fragment = "#frag" => ~Allowed(q, <<r>>))
-ASSUME PrintT(<<"ROWS", Cardinality(Rows)>>)
-ASSUME JsonSerialize(IOEnv.VERIF_TABLE_REDIRECT, SetToSeq(Rows))
+ASSUME \A r \in ParRows : r.target_known => Allowed(r.target, r.reg) \/ ~Absolute(r.target) \/ r.target.fragment # ""
+ASSUME PrintT(<<"ROWS", Cardinality(Rows), Cardinality(ParRows)>>)
+ASSUME JsonSerialize(IOEnv.VERIF_TABLE_REDIRECT, SetToSeq(Rows) \o SetToSeq(ParRows))
 
 VARIABLE x
 Init == x = 0
